@@ -247,17 +247,23 @@ def flw1(ctx):
         r.report("FLW-1b|insert|exception", short_loc(tt["loc"]), tr.path, "insert is not guarded by a failed exception match")
     # ---- 1c: blank / comment lines
     prg = ctx.fn(lib, "asca::parse_rule_groups")
-    pushes = [n for n in hirq.walk(prg.hir["body"]) if n["e"] == "mcall" and n["name"] == "push" and not n.get("exp")]
+    # a helper of lib.rs that runs the parser is looked through
+    prg_root = hirq.inline_helpers(lib, prg, prefixes=("asca::",), only_if=lambda cb: cb.path.count("::") == 1 and any(
+        c["e"] == "mcall" and (c.get("def") or "").endswith("parser::Parser::parse") for c in hirq.walk(cb.hir["body"])))
+    pushes = [n for n in hirq.walk(prg_root) if n["e"] == "mcall" and n["name"] == "push" and not n.get("exp")]
     cond_push = None
-    for n in hirq.walk(prg.hir["body"]):
+    for n in hirq.walk(prg_root):
         if n["e"] == "if":
             lc = [c for c in hirq.walk(n["cond"]) if c["e"] == "letcond"]
             if lc and (lc[0]["pat"].get("path") or "").endswith("Option::Some"):
                 ps = [p for p in hirq.walk(n["then"]) if p["e"] == "mcall" and p["name"] == "push"]
                 parse_calls = [c for c in hirq.walk(lc[0]["init"]) if c["e"] == "mcall" and (c.get("def") or "").endswith("parser::Parser::parse")]
+                if not parse_calls and any(x.get("inl") for x in hirq.walk(lc[0]["init"])):
+                    # the scrutinee is an expanded helper: its result derives from Parser::parse if every value it yields does
+                    parse_calls = [c for c in hirq.walk(lc[0]["init"]) if c["e"] == "mcall" and (c.get("def") or "").endswith("parser::Parser::parse")]
                 if not parse_calls:
                     # `let maybe_rule = Parser::new(..).parse()?; if let Some(rule) = maybe_rule { push }`
-                    prg_lets = {n2["pat"]["hid"]: n2["init"] for n2 in hirq.walk(prg.hir["body"])
+                    prg_lets = {n2["pat"]["hid"]: n2["init"] for n2 in hirq.walk(prg_root)
                                 if n2["e"] == "let" and n2["pat"].get("p") == "bind" and n2.get("init") is not None and "hid" in n2["pat"]}
                     h = hirq.path_hid(lc[0]["init"])
                     hops = 0
